@@ -14,7 +14,7 @@ const SPEC: Spec = Spec {
         "the RNG is consumed through RngCore::{next_u32,next_u64,fill_bytes} with little-endian word order, as rand's block RNGs do; tied to a real generator by replaying the ChaCha value-stability vectors of ci/big_rand",
         "uniformity is decided as exact counting (every candidate of the width is presented once per filler pattern), not as a statistical statement",
     ],
-    bounds_quick: "stream length <= 8 words (32-bit-word generator) / <= 6 words (64-bit-native generator: whole 64-bit units per request); gen_biguint/gen_bigint/RandomBits for every n in 0..=130; below/range/Uniform over 10 bounds x 3 offsets and 14 signed ranges; uniformity for widths <= 11; panic clauses; ChaCha vectors; L-long bit sizes 1000..100001 x 3 dense streams x 2 generator kinds",
+    bounds_quick: "stream length <= 8 words (32-bit-word generator) / <= 6 words (64-bit-native generator: whole 64-bit units per request); gen_biguint/gen_bigint/RandomBits for every n in 0..=130; below/range/Uniform over 10 bounds x 3 offsets and 14 signed ranges; uniformity for widths <= 11; panic clauses; ChaCha vectors; L-long bit sizes 1000..100001 x 3 dense streams x 2 generator kinds; H-huge n = 2^32 and 2^32+7 (512 MiB values) on constant streams",
     bounds_thorough: "stream length <= 10 words; n in 0..=260; uniformity for widths <= 13; L-long up to 1000003 bits",
     hang_secs: 120,
     probes: None,
@@ -497,6 +497,52 @@ fn body(ctx: &mut Ctx) {
             }
             ctx.sample(|| format!("bit size {}: 3 dense word streams x 2 generator kinds through gen_biguint / gen_bigint / RandomBits and an {}-bit bound through below / range / Uniform", n, n));
         }
+    }
+    // ---- H: bit sizes beyond 2^32 (a 512 MiB value): RandomBits must still match gen_biguint / gen_bigint
+    if ctx.space("H-huge") && ctx.mine(0) {
+        struct ConstRng(u8);
+        impl RngCore for ConstRng {
+            fn next_u32(&mut self) -> u32 {
+                u32::from_le_bytes([self.0; 4])
+            }
+            fn next_u64(&mut self) -> u64 {
+                u64::from_le_bytes([self.0; 8])
+            }
+            fn fill_bytes(&mut self, dest: &mut [u8]) {
+                for b in dest.iter_mut() {
+                    *b = self.0;
+                }
+            }
+            fn try_fill_bytes(&mut self, dest: &mut [u8]) -> Result<(), rand::Error> {
+                self.fill_bytes(dest);
+                Ok(())
+            }
+        }
+        for n in [1u64 << 32, (1u64 << 32) + 7] {
+            ctx.case();
+            ctx.nontrivial(1);
+            let r = call(ctx, || {
+                let a = ConstRng(0xff).gen_biguint(n);
+                let abits = a.bits();
+                let b: BigUint = RandomBits::new(n).sample(&mut ConstRng(0xff));
+                let same_u = a == b;
+                drop(b);
+                drop(a);
+                // 0x7f bytes: sign word 0x7f7f7f7f (sign bit clear)
+                let c = ConstRng(0x7f).gen_bigint(n);
+                let cbits = c.bits();
+                let d: BigInt = RandomBits::new(n).sample(&mut ConstRng(0x7f));
+                (abits, same_u, cbits, c == d)
+            });
+            ctx.compared(4);
+            // all-ones stream: every requested bit is set; 0x7f bytes: the top word 0x7f7f7f7f, shifted down to the
+            // requested width, always has its highest requested bit clear and the next one set
+            let want_c = n - 1;
+            if r != Out::Ret((n, true, want_c, true)) {
+                ctx.viol(format!("huge bit size n={}", n), "RandomBits does not match gen_biguint / gen_bigint (or the value does not have the requested width) for a bit size beyond 2^32", vec![format!("n={}", n)], format!("{:?}", (n, true, want_c, true)), format!("{:?}", r));
+            }
+        }
+        ctx.sample(|| "n = 2^32 and 2^32+7 on constant byte streams: gen_biguint width, RandomBits<BigUint> == gen_biguint, RandomBits<BigInt> == gen_bigint".to_string());
     }
     // ---- V: value stability with a real generator (ChaCha vectors of ci/big_rand)
     if ctx.space("V-chacha") && ctx.mine(0) {
